@@ -14,7 +14,7 @@ CONFIG = {
         "files": ["data/pools/zz_verif_c20_pool_test.go"],
         "util": [("data/pools", "pools")],
         "env": {"quick": {"VERIF_C20P_UNIVERSES": 2, "VERIF_C20P_ROUNDS": 10},
-                "thorough": {"VERIF_C20P_UNIVERSES": 9, "VERIF_C20P_ROUNDS": 40}},
+                "thorough": {"VERIF_C20P_UNIVERSES": 6, "VERIF_C20P_ROUNDS": 30}},
         "timeout": {"quick": 900, "thorough": 3300},
         "search_tier": "quick",
     }],
